@@ -237,6 +237,8 @@ func runC08(c *Ctx) {
 		"ack;multi-prefix message-tags|ack;away-notify",
 		"drop;away-notify|drop;multi-prefix|ack;account-notify server-time",
 		"ack;multi-prefix|nak;away-notify|ack;chghost",
+		"ack;multi-prefix message-tags|ack;not-a-capability-we-know",
+		"ack;message-tags|nak;message-tags|ack;message-tags",
 	} {
 		c.run("capreconnect", map[string]string{"rounds": rounds})
 	}
@@ -279,6 +281,15 @@ func runC08(c *Ctx) {
 			steps = append(steps, "R:srv 001 me :Welcome")
 		}
 		adv := 0
+		// whom the server addresses its CAP replies to before registration: "*", or whatever it currently calls us (after a
+		// nick collision, a truncated or forced nick); the negotiation does not depend on it
+		tgt := "*"
+		if c.Rng.Chance(30) {
+			tgt = c.Rng.Pick([]string{"me_", "m", "Guest4711"})
+			if tgt == "me_" {
+				steps = append(steps, "R:srv 433 * me :Nickname is already in use")
+			}
+		}
 		for k := 1 + c.Rng.Intn(6); k > 0; k-- {
 			caps := func(n int) string {
 				var l []string
@@ -290,11 +301,11 @@ func runC08(c *Ctx) {
 			switch c.Rng.Intn(8) {
 			case 0, 1, 2:
 				for m := c.Rng.Intn(3); m > 0; m-- {
-					steps = append(steps, "R:srv CAP * LS * :"+caps(1+c.Rng.Intn(4)))
+					steps = append(steps, "R:srv CAP "+tgt+" LS * :"+caps(1+c.Rng.Intn(4)))
 				}
 				n := c.Rng.Intn(5)
 				adv = n
-				steps = append(steps, "R:srv CAP * LS :"+caps(n))
+				steps = append(steps, "R:srv CAP "+tgt+" LS :"+caps(n))
 			case 3, 4:
 				// ACK: what a server would send — the names the client asked for (from the model's view: the supported ones)
 				var names []string
@@ -311,9 +322,9 @@ func runC08(c *Ctx) {
 				if c.Rng.Chance(15) {
 					names = append(names, "junk")
 				}
-				steps = append(steps, "R:srv CAP * ACK :"+strings.Join(names, " "))
+				steps = append(steps, "R:srv CAP "+tgt+" ACK :"+strings.Join(names, " "))
 			case 5:
-				steps = append(steps, "R:srv CAP * NAK :"+caps(1+c.Rng.Intn(2)))
+				steps = append(steps, "R:srv CAP "+tgt+" NAK :"+caps(1+c.Rng.Intn(2)))
 			case 6:
 				steps = append(steps, "R:srv CAP me NEW :"+caps(1+c.Rng.Intn(3)))
 			default:
